@@ -38,10 +38,11 @@ def notComma : List Token → Bool
   | .comma :: _ => false
   | _ => true
 
-theorem sepLoop_exprs (F : NumFmt) (pe : Parser PExpr) (es : List PExpr) (rest : List Token)
-    (hpe : ∀ e ∈ es, ∀ r, endOk r = true → pe (printTop F e ++ r) = .ok e r)
+theorem sepLoop_exprs (F : NumFmt) (g : PExpr → PExpr) (pe : Parser PExpr) (es : List PExpr) (rest : List Token)
+    (hpe : ∀ e ∈ es, ∀ r, endOk r = true → pe (printTop F e ++ r) = .ok (g e) r)
     (hc : notComma rest = true) (he : endOk rest = true) (k : Nat) (hk : es.length < k) :
-    sepLoopFuel (tok .comma) pe k (es.flatMap (fun e => [Token.comma] ++ printTop F e) ++ rest) = .ok es rest := by
+    sepLoopFuel (tok .comma) pe k (es.flatMap (fun e => [Token.comma] ++ printTop F e) ++ rest) =
+      .ok (es.map g) rest := by
   induction es generalizing k with
   | nil =>
     cases k with
@@ -68,12 +69,14 @@ theorem sepLoop_exprs (F : NumFmt) (pe : Parser PExpr) (es : List PExpr) (rest :
       simp only [List.length_cons, Nat.add_right_cancel_iff, beq_iff_eq]
       have hl : ¬ (printTop F e ++ (List.flatMap (fun e => Token.comma :: printTop F e) es ++ rest)).length =
           (printTop F e ++ (List.flatMap (fun e => Token.comma :: printTop F e) es ++ rest)).length + 1 := by omega
-      simp only [hl, if_false, h1, ih', Outcome.map]
+      simp only [hl, if_false, h1, ih', Outcome.map, List.map_cons]
 
-theorem separatedList0_exprs (F : NumFmt) (pe : Parser PExpr) (e : PExpr) (es : List PExpr) (rest : List Token)
-    (hpe : ∀ x ∈ e :: es, ∀ r, endOk r = true → pe (printTop F x ++ r) = .ok x r)
+theorem separatedList0_exprs (F : NumFmt) (g : PExpr → PExpr) (pe : Parser PExpr) (e : PExpr) (es : List PExpr)
+    (rest : List Token)
+    (hpe : ∀ x ∈ e :: es, ∀ r, endOk r = true → pe (printTop F x ++ r) = .ok (g x) r)
     (hc : notComma rest = true) (he : endOk rest = true) :
-    separatedList0 (tok .comma) pe (sepBy [.comma] ((e :: es).map (printTop F)) ++ rest) = .ok (e :: es) rest := by
+    separatedList0 (tok .comma) pe (sepBy [.comma] ((e :: es).map (printTop F)) ++ rest) =
+      .ok ((e :: es).map g) rest := by
   have hnext : endOk (es.flatMap (fun e => [Token.comma] ++ printTop F e) ++ rest) = true := by
     cases es with
     | nil => simpa using he
@@ -83,7 +86,7 @@ theorem separatedList0_exprs (F : NumFmt) (pe : Parser PExpr) (e : PExpr) (es : 
       es.flatMap (fun e => [Token.comma] ++ printTop F e) := by
     simp [List.flatMap_map]
   simp only [List.map_cons, sepBy_cons, hflat, List.append_assoc, separatedList0, h1]
-  rw [sepLoop_exprs F pe es rest (fun x hx => hpe x (by simp [hx])) hc he]
+  rw [sepLoop_exprs F g pe es rest (fun x hx => hpe x (by simp [hx])) hc he]
   · rfl
   · have : es.length ≤ (es.flatMap (fun e => [Token.comma] ++ printTop F e)).length :=
       length_flatMap_ge _ es (fun _ _ => by simp)
@@ -94,14 +97,20 @@ theorem rt_frameExpr (F : NumFmt) (d : Nat) (c : Command) (mk : FrameIdentifier 
     (f : FrameIdentifier) (e : PExpr)
     (hparse : ∀ pe pi, parseCommand pe pi c = (do let fr ← parseFrameIdentifier; let x ← pe; pure (mk fr x)))
     (ht : toks F (mk f e) = cmd c :: (frameToks f ++ printTop F e))
-    (hf : frameOk f = true) (he : parsedExpr e = true) (hn : numTokOk F e = true)
-    (hd : (toks F (mk f e)).length ≤ d) : RT F d (mk f e) (mk f e) := by
+    (hf : frameOk f = true) (he : finiteLits e = true) (hn : numTokOk F e = true)
+    (hd : (toks F (mk f e)).length ≤ d) : RT F d (mk f e) (mk f (norm e)) := by
   apply rt_of_command F d _ _ c (frameToks f ++ printTop F e) ht
   intro rest
   have hlen : (printTop F e).length < d + 1 := by
     rw [ht] at hd; simp only [List.length_cons, List.length_append] at hd; omega
-  have hx := parseExpr_toks F e he hn (d + 1) (.newLine :: rest) hlen rfl
+  have hx := parseExpressionAt_printTop F e he hn (d + 1) (.newLine :: rest) hlen rfl
   simp only [hparse, bind_eq, Parser.bind, List.append_assoc, parseFrameIdentifier_toks f hf, hx, pure_eq, Parser.pure]
+
+/-- API form: any finite-literal expression, read back as its normal form -/
+theorem rt_setFrequency_norm (F : NumFmt) (d : Nat) (f : FrameIdentifier) (e : PExpr) (hf : frameOk f = true)
+    (he : finiteLits e = true) (hn : numTokOk F e = true) (hd : (toks F (.setFrequency ⟨f, e⟩)).length ≤ d) :
+    RT F d (.setFrequency ⟨f, e⟩) (.setFrequency ⟨f, norm e⟩) :=
+  rt_frameExpr F d .setFrequency (fun f e => .setFrequency ⟨f, e⟩) f e (fun _ _ => rfl) (by simp [toks]) hf he hn hd
 
 theorem rt_setFrequency (F : NumFmt) (d : Nat) (s : SetFrequency) (hp : parsedInstr (.setFrequency s) = true)
     (hn : numTokInstr F (.setFrequency s) = true) (hd : (toks F (.setFrequency s)).length ≤ d) :
@@ -109,9 +118,15 @@ theorem rt_setFrequency (F : NumFmt) (d : Nat) (s : SetFrequency) (hp : parsedIn
   obtain ⟨f, e⟩ := s
   simp only [parsedInstr, Bool.and_eq_true] at hp
   simp only [numTokInstr] at hn
-  exact rt_frameExpr F d .setFrequency (fun f e => .setFrequency ⟨f, e⟩) f e (fun _ _ => rfl) (by simp [toks])
-    hp.1 hp.2 hn hd
+  have := rt_setFrequency_norm F d f e hp.1 (finiteLits_parsedExpr e hp.2) hn hd
+  rwa [norm_parsedExpr e hp.2] at this
 
+
+/-- API form: any finite-literal expression, read back as its normal form -/
+theorem rt_setPhase_norm (F : NumFmt) (d : Nat) (f : FrameIdentifier) (e : PExpr) (hf : frameOk f = true)
+    (he : finiteLits e = true) (hn : numTokOk F e = true) (hd : (toks F (.setPhase ⟨f, e⟩)).length ≤ d) :
+    RT F d (.setPhase ⟨f, e⟩) (.setPhase ⟨f, norm e⟩) :=
+  rt_frameExpr F d .setPhase (fun f e => .setPhase ⟨f, e⟩) f e (fun _ _ => rfl) (by simp [toks]) hf he hn hd
 
 theorem rt_setPhase (F : NumFmt) (d : Nat) (s : SetPhase) (hp : parsedInstr (.setPhase s) = true)
     (hn : numTokInstr F (.setPhase s) = true) (hd : (toks F (.setPhase s)).length ≤ d) :
@@ -119,8 +134,14 @@ theorem rt_setPhase (F : NumFmt) (d : Nat) (s : SetPhase) (hp : parsedInstr (.se
   obtain ⟨f, e⟩ := s
   simp only [parsedInstr, Bool.and_eq_true] at hp
   simp only [numTokInstr] at hn
-  exact rt_frameExpr F d .setPhase (fun f e => .setPhase ⟨f, e⟩) f e (fun _ _ => rfl) (by simp [toks])
-    hp.1 hp.2 hn hd
+  have := rt_setPhase_norm F d f e hp.1 (finiteLits_parsedExpr e hp.2) hn hd
+  rwa [norm_parsedExpr e hp.2] at this
+
+/-- API form: any finite-literal expression, read back as its normal form -/
+theorem rt_setScale_norm (F : NumFmt) (d : Nat) (f : FrameIdentifier) (e : PExpr) (hf : frameOk f = true)
+    (he : finiteLits e = true) (hn : numTokOk F e = true) (hd : (toks F (.setScale ⟨f, e⟩)).length ≤ d) :
+    RT F d (.setScale ⟨f, e⟩) (.setScale ⟨f, norm e⟩) :=
+  rt_frameExpr F d .setScale (fun f e => .setScale ⟨f, e⟩) f e (fun _ _ => rfl) (by simp [toks]) hf he hn hd
 
 theorem rt_setScale (F : NumFmt) (d : Nat) (s : SetScale) (hp : parsedInstr (.setScale s) = true)
     (hn : numTokInstr F (.setScale s) = true) (hd : (toks F (.setScale s)).length ≤ d) :
@@ -128,17 +149,29 @@ theorem rt_setScale (F : NumFmt) (d : Nat) (s : SetScale) (hp : parsedInstr (.se
   obtain ⟨f, e⟩ := s
   simp only [parsedInstr, Bool.and_eq_true] at hp
   simp only [numTokInstr] at hn
-  exact rt_frameExpr F d .setScale (fun f e => .setScale ⟨f, e⟩) f e (fun _ _ => rfl) (by simp [toks])
-    hp.1 hp.2 hn hd
+  have := rt_setScale_norm F d f e hp.1 (finiteLits_parsedExpr e hp.2) hn hd
+  rwa [norm_parsedExpr e hp.2] at this
 
-theorem rt_shiftFrequency (F : NumFmt) (d : Nat) (s : ShiftFrequency)
-    (hp : parsedInstr (.shiftFrequency s) = true) (hn : numTokInstr F (.shiftFrequency s) = true)
-    (hd : (toks F (.shiftFrequency s)).length ≤ d) : RT F d (.shiftFrequency s) (.shiftFrequency s) := by
+/-- API form: any finite-literal expression, read back as its normal form -/
+theorem rt_shiftFrequency_norm (F : NumFmt) (d : Nat) (f : FrameIdentifier) (e : PExpr) (hf : frameOk f = true)
+    (he : finiteLits e = true) (hn : numTokOk F e = true) (hd : (toks F (.shiftFrequency ⟨f, e⟩)).length ≤ d) :
+    RT F d (.shiftFrequency ⟨f, e⟩) (.shiftFrequency ⟨f, norm e⟩) :=
+  rt_frameExpr F d .shiftFrequency (fun f e => .shiftFrequency ⟨f, e⟩) f e (fun _ _ => rfl) (by simp [toks]) hf he hn hd
+
+theorem rt_shiftFrequency (F : NumFmt) (d : Nat) (s : ShiftFrequency) (hp : parsedInstr (.shiftFrequency s) = true)
+    (hn : numTokInstr F (.shiftFrequency s) = true) (hd : (toks F (.shiftFrequency s)).length ≤ d) :
+    RT F d (.shiftFrequency s) (.shiftFrequency s) := by
   obtain ⟨f, e⟩ := s
   simp only [parsedInstr, Bool.and_eq_true] at hp
   simp only [numTokInstr] at hn
-  exact rt_frameExpr F d .shiftFrequency (fun f e => .shiftFrequency ⟨f, e⟩) f e (fun _ _ => rfl)
-    (by simp [toks]) hp.1 hp.2 hn hd
+  have := rt_shiftFrequency_norm F d f e hp.1 (finiteLits_parsedExpr e hp.2) hn hd
+  rwa [norm_parsedExpr e hp.2] at this
+
+/-- API form: any finite-literal expression, read back as its normal form -/
+theorem rt_shiftPhase_norm (F : NumFmt) (d : Nat) (f : FrameIdentifier) (e : PExpr) (hf : frameOk f = true)
+    (he : finiteLits e = true) (hn : numTokOk F e = true) (hd : (toks F (.shiftPhase ⟨f, e⟩)).length ≤ d) :
+    RT F d (.shiftPhase ⟨f, e⟩) (.shiftPhase ⟨f, norm e⟩) :=
+  rt_frameExpr F d .shiftPhase (fun f e => .shiftPhase ⟨f, e⟩) f e (fun _ _ => rfl) (by simp [toks]) hf he hn hd
 
 theorem rt_shiftPhase (F : NumFmt) (d : Nat) (s : ShiftPhase) (hp : parsedInstr (.shiftPhase s) = true)
     (hn : numTokInstr F (.shiftPhase s) = true) (hd : (toks F (.shiftPhase s)).length ≤ d) :
@@ -146,8 +179,8 @@ theorem rt_shiftPhase (F : NumFmt) (d : Nat) (s : ShiftPhase) (hp : parsedInstr 
   obtain ⟨f, e⟩ := s
   simp only [parsedInstr, Bool.and_eq_true] at hp
   simp only [numTokInstr] at hn
-  exact rt_frameExpr F d .shiftPhase (fun f e => .shiftPhase ⟨f, e⟩) f e (fun _ _ => rfl) (by simp [toks])
-    hp.1 hp.2 hn hd
+  have := rt_shiftPhase_norm F d f e hp.1 (finiteLits_parsedExpr e hp.2) hn hd
+  rwa [norm_parsedExpr e hp.2] at this
 
 theorem rt_swapPhases (F : NumFmt) (d : Nat) (s : SwapPhases) (hp : parsedInstr (.swapPhases s) = true) :
     RT F d (.swapPhases s) (.swapPhases s) := by
@@ -196,14 +229,15 @@ theorem lparen_qubits (qs : List Qubit) (rest : List Token) :
 
 /-- `parse_parameters` (the optional parenthesised expression list) on a printed parameter list followed by
 something that is not an opening parenthesis -/
-theorem parseParameters_toks (F : NumFmt) (pe : Parser PExpr) (ps : List PExpr) (rest : List Token)
-    (hpe : ∀ x ∈ ps, ∀ r, endOk r = true → pe (printTop F x ++ r) = .ok x r)
+theorem parseParameters_toks (F : NumFmt) (g : PExpr → PExpr) (pe : Parser PExpr) (ps : List PExpr)
+    (rest : List Token)
+    (hpe : ∀ x ∈ ps, ∀ r, endOk r = true → pe (printTop F x ++ r) = .ok (g x) r)
     (hrest : tok .lParenthesis rest = .err) :
-    parseParameters pe (paramsToks F ps ++ rest) = .ok ps rest := by
+    parseParameters pe (paramsToks F ps ++ rest) = .ok (ps.map g) rest := by
   cases ps with
   | nil => simp [parseParameters, paramsToks, opt, delimited, Parser.bind, hrest, Parser.pure]
   | cons e es =>
-    have hs := separatedList0_exprs F pe e es (.rParenthesis :: rest) hpe rfl rfl
+    have hs := separatedList0_exprs F g pe e es (.rParenthesis :: rest) hpe rfl rfl
     simp only [List.map_cons] at hs
     simp only [parseParameters, paramsToks, List.isEmpty_cons, Bool.false_eq_true, if_false, bind_eq, Parser.bind,
       opt, delimited, List.cons_append, List.append_assoc, List.singleton_append, pure_eq,
@@ -237,27 +271,30 @@ theorem length_paramsToks_ge (F : NumFmt) (ps : List PExpr) (e : PExpr) (he : e 
       List.length_nil]
     omega
 
-theorem rt_gate (F : NumFmt) (d : Nat) (g : Gate) (hp : parsedInstr (.gate g) = true)
-    (hn : numTokInstr F (.gate g) = true) (hd : (toks F (.gate g)).length ≤ d) : RT F d (.gate g) (.gate g) := by
+/-- API form: parameters with finite literals are read back as their normal forms -/
+theorem rt_gate_norm (F : NumFmt) (d : Nat) (g : Gate) (hfin : g.parameters.all finiteLits = true)
+    (hq : g.qubits.all noPlaceholder = true) (hn : g.parameters.all (numTokOk F) = true)
+    (hd : (toks F (.gate g)).length ≤ d) :
+    RT F d (.gate g) (.gate { g with parameters := g.parameters.map norm }) := by
   obtain ⟨name, ps, qs, ms⟩ := g
-  simp only [parsedInstr, gateOk, Bool.and_eq_true] at hp
-  simp only [numTokInstr] at hn
   have hlenp : ∀ e ∈ ps, (printTop F e).length < d + 1 := by
     intro e he
     have := length_paramsToks_ge F ps e he
     simp only [toks, gateToks, List.length_append, List.length_cons, List.length_map] at hd
     omega
-  have hpe : ∀ x ∈ ps, ∀ r, endOk r = true → parseExpressionAt (d + 1) (printTop F x ++ r) = .ok x r := by
+  have hpe : ∀ x ∈ ps, ∀ r, endOk r = true →
+      parseExpressionAt (d + 1) (printTop F x ++ r) = .ok (norm x) r := by
     intro x hx r hr
-    exact parseExpr_toks F x (List.all_eq_true.mp hp.1 x hx) (List.all_eq_true.mp hn x hx) (d + 1) r (hlenp x hx) hr
+    exact parseExpressionAt_printTop F x (List.all_eq_true.mp hfin x hx) (List.all_eq_true.mp hn x hx) (d + 1) r
+      (hlenp x hx) hr
   have hgate : ∀ rest, parseGate (parseExpressionAt (d + 1))
       (ms.map modifierTok ++ identTok name :: (paramsToks F ps ++ (qubitsToks qs ++ .newLine :: rest))) =
-        .ok (.gate ⟨name, ps, qs, ms⟩) (.newLine :: rest) := by
+        .ok (.gate ⟨name, ps.map norm, qs, ms⟩) (.newLine :: rest) := by
     intro rest
     simp only [parseGate, bind_eq, Parser.bind, many0_modifiers]
     simp only [identTok, tokIdentifier, str_toList,
-      parseParameters_toks F _ ps _ hpe (lparen_qubits qs rest),
-      many0_parseQubit qs hp.2 _ (show notQubit (.newLine :: rest) = true from rfl), pure_eq, Parser.pure]
+      parseParameters_toks F norm _ ps _ hpe (lparen_qubits qs rest),
+      many0_parseQubit qs hq _ (show notQubit (.newLine :: rest) = true from rfl), pure_eq, Parser.pure]
   intro rest
   have htoks : toks F (.gate ⟨name, ps, qs, ms⟩) ++ .newLine :: rest =
       ms.map modifierTok ++ identTok name :: (paramsToks F ps ++ (qubitsToks qs ++ .newLine :: rest)) := by
@@ -278,5 +315,23 @@ theorem rt_gate (F : NumFmt) (d : Nat) (g : Gate) (hp : parsedInstr (.gate g) = 
     have hg := hgate rest
     simp only [List.map_cons, List.cons_append] at hg ⊢
     exact ⟨hb.1.trans hg, hb.2.trans hg⟩
+
+theorem map_norm_parsed (ps : List PExpr) (h : ps.all parsedExpr = true) : ps.map norm = ps := by
+  induction ps with
+  | nil => rfl
+  | cons e es ih =>
+    simp only [List.all_cons, Bool.and_eq_true] at h
+    simp [norm_parsedExpr e h.1, ih h.2]
+
+theorem rt_gate (F : NumFmt) (d : Nat) (g : Gate) (hp : parsedInstr (.gate g) = true)
+    (hn : numTokInstr F (.gate g) = true) (hd : (toks F (.gate g)).length ≤ d) : RT F d (.gate g) (.gate g) := by
+  simp only [parsedInstr, gateOk, Bool.and_eq_true] at hp
+  simp only [numTokInstr] at hn
+  have hfin : g.parameters.all finiteLits = true := by
+    rw [List.all_eq_true]
+    intro e he
+    exact finiteLits_parsedExpr e (List.all_eq_true.mp hp.1 e he)
+  have := rt_gate_norm F d g hfin hp.2 hn hd
+  rwa [map_norm_parsed _ hp.1] at this
 
 end QV.C02
